@@ -59,4 +59,8 @@ for _a in range(6):
             bounds='2 operations (%s then %s) with symbolic parameters and values, buffer of 5 bytes, ft <= 256 for division-based kinds' % (_KN[_a], _KN[_b]),
             what='encode -> ec_enc_done -> decode: values, tell, tell_frac and rng agree; done cannot fail within budget'))
 # ec_encode is used through its contract by ec_enc_uint but its own range facts are NOT discharged (tier off): it is reported as an assumed contract
+GROUPS.append(dict(_INV, name='inv_patch_bit_bit_freq', unwind=10, timeout=3600, mem_gb=20,
+    defines=['-DVERIF_NOPS=3', '-DVERIF_K0=0', '-DVERIF_K1=0', '-DVERIF_K2=5', '-DVERIF_STORAGE=5', '-DVERIF_PATCH=2'],
+    bounds='2 bits (p=1/2) + one frequency-coded symbol (ft <= 256) + ec_enc_patch_initial_bits of the 2 bits, buffer of 5 bytes',
+    what='initial-bit patching: if the encoder reports no error the decoder sees the patched bits and the following symbol unchanged'))
 META = {'enforced_elsewhere': ['ec_write_byte', 'ec_write_byte_at_end', 'ec_enc_carry_out', 'ec_enc_normalize', 'ec_enc_bits', 'ec_read_byte', 'ec_read_byte_from_end', 'ec_dec_normalize']}
